@@ -102,6 +102,16 @@ def plan(tier, seed):
                     yield ("for", "{} for {} {}".format(ds, n, u), (d.year, d.month, d.day, None, None), n, uname, TS)
                     if d.day >= 28 or tier == "thorough":
                         yield ("for", "{} 14:30 für {} {}".format(ds, n, de_u[0] if n == 1 else de_u[1]), (d.year, d.month, d.day, 14, 30), n, uname, TS)
+        # ranges of a month or more, and of k years + N days (the consistency check must compare the whole length)
+        for (a, b) in ((date(2020, 3, 1), date(2020, 4, 1)), (date(2020, 11, 15), date(2021, 11, 18)), (date(2020, 11, 15), date(2022, 11, 18)), (date(2021, 1, 31), date(2021, 3, 3)), (date(2019, 12, 30), date(2020, 1, 2))):
+            ln = (b - a).days
+            for n in sorted({3, 31, ln, ln - 365, ln - 366, ln - 730, 1} - {0}):
+                if n <= 0:
+                    continue
+                rng = "{:02d}.{:02d}.{} - {:02d}.{:02d}.{}".format(a.day, a.month, a.year, b.day, b.month, b.year)
+                for u in ("days", "nights"):
+                    yield ("durrange2", "{} {} {}".format(n, u if n != 1 else u[:-1], rng), (a.year, a.month, a.day), (b.year, b.month, b.day), n, TS)
+                    yield ("durrange2", "{} für {} {}".format(rng, n, "nächte" if n != 1 else "nacht"), (a.year, a.month, a.day), (b.year, b.month, b.day), n, TS)
         base = date(2018, 11, 15)
         for ln in range(1, 11):
             for n in range(0, 11):
@@ -113,6 +123,7 @@ def plan(tier, seed):
                     yield ("durrange", rng + " " + dur, ln, n, "range dur", TS)
                     yield ("durrange", rng + " für " + dur, ln, n, "range für dur", TS)
 
+    space_long = 1
     space = {"unit_spellings": sum(len(a) for _, a in units), "digit_amounts": 121, "number_words": 31, "start_dates": len(starts), "amounts": AMOUNTS, "units": 6, "range_lengths": 10, "range_amounts": 11}
     return {"space": space, "cases": gen(), "chunk": 128, "hash_distinct": tier == "quick"}
 
@@ -156,6 +167,19 @@ def run_case(case):
         out = {"o": "for:" + ("ok" if ok else "bad"), "nt": n != 1}
         if not ok:
             out["v"] = [viol({"kind": "for", "unit": uname, "with_clock": hh is not None, "amount": n if n <= 1 else ">1"}, "{!r} -> {} expected {}".format(text, fmt(got), fmt(exp)), exp, got)]
+        return out
+    if kind == "durrange2":
+        _, text, a, b, n, ts_s = case
+        a, b = date(*a), date(*b)
+        ln = (b - a).days
+        iv = ("I", T(a.year, a.month, a.day), T(b.year, b.month, b.day))
+        r = parse(text, ts_s, max_stack_depth=0)
+        got = res_obs(r)
+        full = r is not None and r.resolution is not None and (r.resolution.mend - r.resolution.mstart) >= len(text) - 1
+        ok = (got == iv and full) if ln == n else not (got == iv and full)
+        out = {"o": "durrange2:" + ("ok" if ok else "bad"), "nt": True}
+        if not ok:
+            out["v"] = [viol({"kind": "durrange_long", "why": "consistent_range_not_accepted" if ln == n else "inconsistent_range_accepted"}, "{!r} (range is {} days, stated {}) -> {} span={}".format(text, ln, n, fmt(got), None if r is None or r.resolution is None else (r.resolution.mstart, r.resolution.mend)), None, got)]
         return out
     if kind == "durrange":
         _, text, ln, n, order, ts_s = case
